@@ -854,8 +854,11 @@ func (ex *Exec) captureRef(st *PState, in *ssa.DebugRef, setEnv func(ssa.Value, 
 func (ex *Exec) lenientStep(act *activation, st *PState, instr ssa.Instruction, setEnv func(ssa.Value, Value)) (handled bool) {
 	defer func() {
 		if r := recover(); r != nil {
-			if _, ok := r.(execError); ok {
+			if ee, ok := r.(execError); ok {
 				ex.note("lenient init: skipped instruction in " + act.fn.Pkg.Pkg.Path())
+				if len(ex.notes) < 40 {
+					ex.note("lenient init skip reason: " + ee.msg)
+				}
 				handled = true
 				return
 			}
@@ -979,6 +982,7 @@ func (ex *Exec) ensureInit(pkg *ssa.Package) {
 	st := &PState{g: ex.ts.Bool(true), heap: NewHeap()}
 	saveCfg := *ex.cfg
 	ex.cfg.AllowPanic = false
+	ex.cfg.Unroll = 1 << 20 // package initialisation is concrete: loops run to completion
 	saveObl := len(ex.obligations)
 	saveDepth := ex.depth
 	ex.depth = 0
@@ -1020,7 +1024,13 @@ func (ex *Exec) ensureInit(pkg *ssa.Package) {
 	}()
 	ex.depth = saveDepth
 	*ex.cfg = saveCfg
-	// obligations raised inside init are dropped (init is concrete library code)
+	// obligations raised inside init are dropped (init is concrete library code), except that an
+	// unwinding failure would mean that part of the initialisation was silently cut off
+	for _, o := range ex.obligations[saveObl:] {
+		if o.Kind == "unwind" {
+			fail("loop bound exceeded during initialisation of %s (%s)", pkg.Pkg.Path(), o.ID)
+		}
+	}
 	ex.obligations = ex.obligations[:saveObl]
 	_ = firstObj
 	st.heap.each(func(id int, v Value) { ex.globalInit[id] = v })
@@ -1052,6 +1062,9 @@ func (ex *Exec) evalValue(act *activation, st *PState, v ssa.Value) Value {
 			}
 			if _, ok := ex.abstractSort(in.X.Type().(*types.Pointer).Elem()); ok {
 				fail("field access into abstracted type %s", in.X.Type())
+			}
+			if ex.vecDim(in.X.Type()) > 0 {
+				fail("field access into module-abstracted type %s", in.X.Type())
 			}
 			return &PtrV{Obj: pv.Obj, Path: appendPath(pv.Path, in.Field)}
 		})
@@ -1344,6 +1357,13 @@ func (ex *Exec) valueEq(x, y Value) *Term {
 			return ts.Bool(false)
 		}
 		return ex.valueEq(a.V, b.V)
+	case *VecV:
+		b := y.(*VecV)
+		var cs []*Term
+		for i := range a.C {
+			cs = append(cs, ts.Eq(a.C[i], b.C[i]))
+		}
+		return ts.And(cs...)
 	case *StructV:
 		b := y.(*StructV)
 		var cs []*Term
